@@ -205,12 +205,15 @@ class SqliteDLQMixin:
         """
         conn = self._get_connection()
 
-        # Find messages that have exceeded max_attempts
+        # Find messages that have exceeded max_attempts. A row whose lock is
+        # still live is being handled right now (its last attempt): leave it
+        # to its holder, which acks or reschedules it, or to the lock expiry.
         result = conn.execute(
             f"""
             SELECT id, message_type, attempts
             FROM {self.table_name}
             WHERE attempts >= max_attempts
+            AND (locked_until IS NULL OR datetime(locked_until) < datetime('now', 'utc'))
             """,
         )
         rows = result.fetchall()
